@@ -2,7 +2,7 @@ CONSTANTS
  MaxLen = 2
  ReadSizes = {1, 2, 5}
  MaxDrops = 1
- MaxFails = 1
+ MaxFails = 0
  MaxSeeks = 1
  MaxAgain = 1
  RetryLimit = 3
@@ -12,8 +12,9 @@ CONSTANTS
  Chunks = {1, 5}
  LyingSizes = TRUE
  InlineData = TRUE
+ Conc = 64
 INIT Init
 NEXT Next
 VIEW View
-INVARIANTS TypeOK PCleanOk HashIsGot CountIsGot Bounded EofVerified EofSized
+INVARIANTS TypeOK PCleanOk HashIsGot CountIsGot Bounded EofVerified EofSized NeverSelfBlocked NoLeftover
 CHECK_DEADLOCK FALSE
